@@ -146,6 +146,9 @@ type MatcherSpec struct {
 	// Stmt: options are applied as plain statements on the matcher held in a variable (m := match.Any(..);
 	// m.ErrOnMissingPath(false)) instead of chained calls whose return value is passed on
 	Stmt bool `json:"options_as_statements,omitempty"`
+	// Relaxed: before its final setting the matcher was relaxed once (m.ErrOnMissingPath(false) in an earlier table case,
+	// a shared matcher another test loosened): the LAST setting (ErrMissing, default strict) is what counts
+	Relaxed bool `json:"relaxed_before_the_final_setting,omitempty"`
 }
 
 type customObs struct {
@@ -175,9 +178,15 @@ type bothMatcher interface {
 }
 
 func (rt *matcherRT) build(m MatcherSpec) bothMatcher {
+	if m.Relaxed && m.ErrMissing == nil {
+		m.ErrMissing = boolp(true) // the final setting is spelled out
+	}
 	switch m.Kind {
 	case "any":
 		a := match.Any(m.Paths...)
+		if m.Relaxed {
+			a = a.ErrOnMissingPath(false)
+		}
 		if m.Stmt {
 			if len(m.Placeholder) > 0 {
 				a.Placeholder(decodeAny(m.Placeholder))
@@ -197,21 +206,21 @@ func (rt *matcherRT) build(m MatcherSpec) bothMatcher {
 	case "type":
 		switch m.TypeName {
 		case "string":
-			return typeOpt(match.Type[string](m.Paths...), m.ErrMissing, m.Stmt)
+			return typeOpt(match.Type[string](m.Paths...), m.ErrMissing, m.Stmt, m.Relaxed)
 		case "float64":
-			return typeOpt(match.Type[float64](m.Paths...), m.ErrMissing, m.Stmt)
+			return typeOpt(match.Type[float64](m.Paths...), m.ErrMissing, m.Stmt, m.Relaxed)
 		case "bool":
-			return typeOpt(match.Type[bool](m.Paths...), m.ErrMissing, m.Stmt)
+			return typeOpt(match.Type[bool](m.Paths...), m.ErrMissing, m.Stmt, m.Relaxed)
 		case "map":
-			return typeOpt(match.Type[map[string]any](m.Paths...), m.ErrMissing, m.Stmt)
+			return typeOpt(match.Type[map[string]any](m.Paths...), m.ErrMissing, m.Stmt, m.Relaxed)
 		case "slice":
-			return typeOpt(match.Type[[]any](m.Paths...), m.ErrMissing, m.Stmt)
+			return typeOpt(match.Type[[]any](m.Paths...), m.ErrMissing, m.Stmt, m.Relaxed)
 		case "uint64":
-			return typeOpt(match.Type[uint64](m.Paths...), m.ErrMissing, m.Stmt)
+			return typeOpt(match.Type[uint64](m.Paths...), m.ErrMissing, m.Stmt, m.Relaxed)
 		case "int":
-			return typeOpt(match.Type[int](m.Paths...), m.ErrMissing, m.Stmt)
+			return typeOpt(match.Type[int](m.Paths...), m.ErrMissing, m.Stmt, m.Relaxed)
 		case "any":
-			return typeOpt(match.Type[any](m.Paths...), m.ErrMissing, m.Stmt)
+			return typeOpt(match.Type[any](m.Paths...), m.ErrMissing, m.Stmt, m.Relaxed)
 		}
 		panic("unknown type matcher " + m.TypeName)
 	case "custom":
@@ -248,6 +257,9 @@ func (rt *matcherRT) build(m MatcherSpec) bothMatcher {
 			}
 			return decodeAny(m.Return), nil
 		})
+		if m.Relaxed {
+			c = c.ErrOnMissingPath(false)
+		}
 		if m.ErrMissing != nil && m.Stmt {
 			c.ErrOnMissingPath(*m.ErrMissing)
 		} else if m.ErrMissing != nil {
@@ -265,7 +277,10 @@ type errOnMissinger[T any] interface {
 func typeOpt[T interface {
 	bothMatcher
 	errOnMissinger[T]
-}](m T, e *bool, stmt bool) bothMatcher {
+}](m T, e *bool, stmt bool, relaxed bool) bothMatcher {
+	if relaxed {
+		m = m.ErrOnMissingPath(false)
+	}
 	if e != nil && stmt {
 		m.ErrOnMissingPath(*e)
 		return m
